@@ -175,10 +175,10 @@ def finishS (s : State) : State :=
   | [] => { s with sph := .done }
   | j :: r => { s with sph := .ins, cur := j, todo := r }
 
-def setLast {α : Type} (l : List α) (f : α → α) : List α :=
-  match l.reverse with
-  | [] => []
-  | x :: r => (f x :: r).reverse
+def setLast {α : Type} : List α → (α → α) → List α
+  | [], _ => []
+  | [x], f => [f x]
+  | x :: y :: r, f => x :: setLast (y :: r) f
 
 /-! ### the scheduler thread -/
 def stepS (V : Variant) (s : State) : Option State :=
@@ -206,12 +206,13 @@ def stepS (V : Variant) (s : State) : Option State :=
   | .newPre r => some { s with sph := sNops r.tail .newPre .new }
   | .new => some { s with mons := s.mons ++ [{ ph := .unstarted }], sph := .start }
   | .start =>
-    let s := { s with mons := setLast s.mons (fun m => { m with ph := mNops V.mPre .pre .loop }) }
+    -- Thread.start() of the thread object created by the line before (a started thread cannot be started again)
+    let s := { s with mons := setLast s.mons (fun m => if m.ph = .unstarted then { m with ph := mNops V.mPre .pre .loop } else m) }
     if V.glue then some { s with sph := .testSub } else some (finishS s)
   | .testSub => if lastSubAlive s then some (finishS s) else some { s with sph := .newSub }
   | .newSub => some { s with subs := s.subs ++ [{ ph := .unstarted }], sph := .startSub }
   | .startSub =>
-    some (finishS { s with subs := setLast s.subs (fun u => { u with ph := uNops V.uPre .pre .outer }) })
+    some (finishS { s with subs := setLast s.subs (fun u => if u.ph = .unstarted then { u with ph := uNops V.uPre .pre .outer } else u) })
   | .done => none
 
 /-! ### a monitor thread -/
